@@ -44,7 +44,9 @@ def throughput_spec(draw, max_rate):
     value = draw(st.sampled_from(rates))
     if unit != "ops/s":
         value = value * draw(st.sampled_from([1, 100, 1000]))
-    return {"kind": "string", "value": value, "unit": unit}
+    # how the number is written: the documented format is "<number> <unit>/s"; Rally accepts (\d*\.)?\d+ followed by one white space
+    text = draw(st.sampled_from(["plain", "plain", "leading-dot", "two-decimals", "leading-zero", "tab"]))
+    return {"kind": "string", "value": value, "unit": unit, "text": text}
 
 
 @st.composite
